@@ -31,7 +31,36 @@
 #endif
 
 /* buffer of exactly n 64-bit words placed OFFS words inside its allocation (8/16/24-byte misalignment of the start) */
+#ifndef ARENA
 static uint64_t* buf(uint64_t n) { return vf_alloc_words(n + OFFS) + OFFS; }
+#else
+/* -DARENA=1|2: every buffer of the call is a slice of ONE allocation, back to back with no gap (1: in order of use, 2: in reverse order) - the
+ * layout of a caller that carves its vectors out of a scratch arena.  Overruns of a slice then land in the neighbouring operand (seen by the
+ * snapshot comparisons) instead of being flagged as out of bounds, and code that compares addresses of different arguments sees adjacent ranges. */
+#ifndef ARENA_WORDS
+#define ARENA_WORDS 1536
+#endif
+static uint64_t* vf_arena;
+static uint64_t vf_arena_lo, vf_arena_hi;
+static uint64_t* buf(uint64_t n) {
+  if (!vf_arena) {
+    vf_arena = vf_alloc_words_raw(ARENA_WORDS);
+    vf_arena_lo = 0;
+    vf_arena_hi = ARENA_WORDS;
+  }
+  VF_ASSERT(vf_arena_lo + n <= vf_arena_hi, "harness arena large enough");
+  uint64_t* p;
+  if (ARENA == 1) {
+    p = vf_arena + vf_arena_lo;
+    vf_arena_lo += n;
+  } else {
+    vf_arena_hi -= n;
+    p = vf_arena + vf_arena_hi;
+  }
+  for (uint64_t i = 0; i < n; ++i) p[i] = vf_u64();
+  return p;
+}
+#endif
 
 static uint64_t words_of_bytes(uint64_t b) {
   VF_ASSERT(b % 8 == 0, "byte size is a multiple of 8");
